@@ -1,4 +1,5 @@
 import LyModel.Diff.Apply
+import LyModel.Diff.UOBridgeHyp
 /-! driver ops of component `diff` (and of the shared tree base): see harness/api_diff.c for the protocol -/
 namespace LyModel.Diff.Drv
 open LyModel LyModel.Tree
@@ -42,6 +43,21 @@ def handle (op : String) (args : List String) : String :=
       match apply S C (diffFromPtr S (o != "0") A B (parseFixes fx)) (parseFixes fx) with
       | .ok r => if hasDupInst S (heightL r + 1) r then "ok DupInstances" else "ok " ++ dumpTok (stripNpL S r)
       | .error e => "err " ++ e.name
+  -- does the pair satisfy the hypotheses of `Props.C06UO.apply_diff_userord_flat_ll`?  If so: the operations of the list core
+  | "uohyp", [dsl, a, b] =>
+    withSchema dsl fun S => withTree S a fun A => withTree S b fun B =>
+      match UOB.flatLL S A B with
+      | some s => "ok 1 " ++ toString s ++ " " ++ " ".intercalate (UOB.coreOps A B)
+      | none =>
+        match UOB.flatKL S A B with
+        | some s => "ok 2 " ++ toString s ++ " " ++ " ".intercalate (UOB.coreOpsK S s A B)
+        | none =>
+          match UOB.nbLL S A B with
+          | some s => "ok 3 " ++ toString s ++ " " ++ " ".intercalate (UOB.coreOpsNB s A B)
+          | none =>
+            match UOB.contLL S A B with
+            | some s => "ok 4 " ++ toString s ++ " " ++ " ".intercalate (UOB.coreOpsCont s A B)
+            | none => "ok 0"
   | _, _ => "err BadOp"
 
 end LyModel.Diff.Drv
